@@ -159,7 +159,7 @@ def c06(res):
 
 def c09(res):
     r = kani_part(res, K_C09)
-    T.run_tv(res, {"F2", "F8"}, {"value"}, reject_is_violation=True,
+    T.run_tv(res, {"F2", "F8"}, {"value", "trace"}, reject_is_violation=True,
              note="literal spellings denote the value an independent decoder assigns; unparenthesised operator chains == the tree built from the documented precedence table")
     finish_k(res, r,
              "Kani: recognisers vs reference scanners written from the documented grammar, every ASCII string <= 4 bytes (ident: UTF-8 <= 3); "
